@@ -30,6 +30,9 @@ type c13Case struct {
 	Strategy c13kit.Strategy `json:"strategy"`
 	Natural  bool            `json:"natural"` // wait for the reactor's own switch-to-consensus ticker
 	Reverse  bool            `json:"reverse"` // hold the first answers until every height was asked, then deliver highest first
+	// Inflate > 0: the first peer of the top height (the carrier of the tip's commit) claims to have Inflate more heights than
+	// it has (a false status), answers the request for its real height according to the strategy and is silent about the rest
+	Inflate int64 `json:"inflate,omitempty"`
 }
 
 type c13Peer = c13hand.Peer
@@ -52,6 +55,7 @@ type c13Net struct {
 	cur    map[int64]*c13Peer // current peer per height
 	nextK  map[int64]int
 	strat  c13kit.Strategy
+	inflate int64
 	seq    int
 	trace  func(string, ...interface{})
 }
@@ -106,7 +110,11 @@ func (n *c13Net) addPeer(h int64) *c13Peer {
 	}
 	p2p.AddPeerToSwitchPeerSet(n.sw, p)
 	n.bcR.AddPeer(p)
-	n.deliver(p, c13kit.StatusMsg(h, h))
+	top := h
+	if n.inflate > 0 && h == c13kit.Tip+1 && k == 0 {
+		top = h + n.inflate
+	}
+	n.deliver(p, c13kit.StatusMsg(h, top))
 	return p
 }
 
@@ -160,12 +168,13 @@ const c13CaseTimeout = 90 * time.Second
 
 // c13Run executes one case on a fresh node.
 func c13Run(chain *c13kit.Chain, c c13Case) (res c13Result) {
-	if c13NeedsTimeout(c.Strategy) {
+	if c13NeedsTimeout(c.Strategy) || c.Inflate > 0 {
 		peerTimeout = 200 * time.Millisecond // package variable "so we can override with tests"; only unanswered requests wait for it
 	} else {
 		peerTimeout = 15 * time.Second
 	}
 	n := c13NewNet(chain, c.Strategy)
+	n.inflate = c.Inflate
 	defer n.close()
 	diag := func(s string) { res.Diags = append(res.Diags, s) }
 	t0 := time.Now()
@@ -201,6 +210,9 @@ LOOP:
 		case ev := <-n.events:
 			p := ev.peer
 			trace("request h=%d to peer(h=%d,k=%d) asked=%v running=%v", ev.height, p.H, p.K, p.Asked, p.IsRunning())
+			if ev.height != p.H && c.Inflate > 0 && p.H == c13kit.Tip+1 && p.K == 0 && ev.height > p.H && ev.height <= p.H+c.Inflate {
+				continue // a height the peer only claimed to have: silence
+			}
 			if ev.height != p.H {
 				diag("unexpected_request")
 				res.Notes = append(res.Notes, fmt.Sprintf("request for height %d reached peer(h=%d,k=%d) in %s", ev.height, p.H, p.K, c.Strategy))
@@ -375,7 +387,7 @@ func TestVerifC13V0(t *testing.T) {
 	defer r.Finish()
 	defer c13hand.Cleanup()
 	r.Rule = "every adversary strategy with <= L lies over heights 1..5 of a 6-block canonical chain with a validator addition: (height, successive peer) -> lie from the menu; " +
-		"strategies are distinct by construction; non-trivial = at least one lie; each runs the real v0 reactor to the tip and through the hand-over"
+		"the <= 1-lie strategies also with a false status (the top peer claims two heights it does not have and is silent about them); strategies are distinct by construction; non-trivial = at least one lie; each runs the real v0 reactor to the tip and through the hand-over"
 	r.Assume("ed25519 is a black box; the adversary holds one validator key (< 1/3) and cannot forge the others")
 	r.Assume("schedules inside the pool's goroutines are whatever the Go scheduler produces; the enumerated dimension is the adversary's strategy (plus two delivery orders)")
 	r.Assume("peerTimeout (a package variable) is lowered to 200ms in cases that contain unanswered requests")
@@ -490,6 +502,23 @@ func TestVerifC13V0(t *testing.T) {
 		}
 		return true
 	})
+	// false status: the same <= 1-lie strategies with the first peer of the top height claiming two more heights than it has
+	if !stop {
+		c13kit.Enumerate(func(int) []c13kit.Lie { return c13kit.FullMenu() }, 1, func(s c13kit.Strategy) bool {
+			for _, nat := range []bool{false, true} {
+				k++
+				if !r.Mine(k) {
+					continue
+				}
+				if r.Deadline("v0 strategies with a false status") {
+					stop = true
+					return false
+				}
+				run(c13Case{Strategy: s, Natural: nat, Inflate: 2})
+			}
+			return true
+		})
+	}
 	if !stop {
 		levelDone = maxLies
 	}
